@@ -38,7 +38,7 @@ pub fn main_entry() {
 		"check" => check(&args[2], args.get(3).map(|s| s.as_str()).unwrap_or("quick")),
 		"shard" => shard(&args[2], &args[3], args[4].parse().unwrap(), args[5].parse().unwrap(), Path::new(&args[6])),
 		"replay" => replay(&args[2], Path::new(&args[3])),
-		"lock-child" => crate::props::c18::child_main(&args[2]),
+		"lock-child" => crate::props::c18::child_main(&args[2], args.get(3).map(|s| s.as_str()).unwrap_or("0")),
 		"kill-child" => crate::props::c02::kill_child_main(&args[2], &args[3]),
 		_ => {
 			eprintln!("unknown command");
